@@ -334,7 +334,7 @@ pub fn run_check(
     use std::io::Write;
     let t0 = Instant::now();
     let deadline = t0 + Duration::from_secs(budget_s);
-    let props = vec![property.to_string()];
+    let props = if property == "ALL" { vec![] } else { vec![property.to_string()] };
     let mut results = vec![];
     let mut exit = 0;
     let known = crate::known::guards_for(property);
@@ -357,6 +357,44 @@ pub fn run_check(
     // verdicts
     let mut nviol = 0;
     let mut replay_paths = vec![];
+    // regression replays of repaired defects: a fixed entry suppresses nothing
+    let mut regress_run = 0usize;
+    let rdir = crate::known::verif_root().join("regress").join(property);
+    if let Ok(rd) = std::fs::read_dir(&rdir) {
+        let mut files: Vec<_> = rd.filter_map(|e| e.ok()).map(|e| e.path()).collect();
+        files.sort();
+        for f in files {
+            let Ok(text) = std::fs::read_to_string(&f) else { continue };
+            let Ok(v) = serde_json::from_str::<serde_json::Value>(&text) else { continue };
+            let opts: Opts = if v["opts"].is_null() {
+                Opts::default()
+            } else {
+                match serde_json::from_value(v["opts"].clone()) {
+                    Ok(o) => o,
+                    Err(_) => continue,
+                }
+            };
+            let Ok(events) = serde_json::from_value::<Vec<Event>>(v["events"].clone()) else { continue };
+            regress_run += 1;
+            match replay(&opts, &events) {
+                Ok(vs) => {
+                    for x in vs.iter().filter(|x| x.property == property) {
+                        nviol += 1;
+                        let _ = writeln!(out, "VIOLATION property={property} replay={}", f.display());
+                        let _ = writeln!(out, "  (regression of a repaired defect) {}", x.what);
+                        replay_paths.push(f.display().to_string());
+                        exit = 1;
+                        break;
+                    }
+                }
+                Err(e) => {
+                    let _ = writeln!(out, "MACHINERY-ERROR property={property} regress replay {}: {e}", f.display());
+                    cleanup_scratch();
+                    return 2;
+                }
+            }
+        }
+    }
     for (spec, r) in &results {
         for (v, h) in &r.found {
             // confirm by re-execution from scratch
@@ -371,8 +409,9 @@ pub fn run_check(
             if !confirmed {
                 let _ = writeln!(
                     out,
-                    "MACHINERY-ERROR property={property} violation did not reproduce (nondeterminism): {}",
-                    v.what
+                    "MACHINERY-ERROR property={property} violation did not reproduce (nondeterminism): {} history={}",
+                    v.what,
+                    serde_json::to_string(h).unwrap_or_default()
                 );
                 cleanup_scratch();
                 return 2;
@@ -441,6 +480,7 @@ pub fn run_check(
             .collect::<Vec<_>>()),
     );
     cov.insert("threads".into(), json!(threads()));
+    cov.insert("regression_replays_run".into(), json!(regress_run));
     cov.insert("known_findings_armed".into(), json!(known.iter().map(|g| g.finding.id.clone()).collect::<Vec<_>>()));
     cov.insert("violation_replays".into(), json!(replay_paths));
     let mut assumptions: Vec<String> = vec![
